@@ -137,6 +137,27 @@ theorem datagram_roundtrip (q : Nat) (payload : Bytes) (hq : q ≤ Ids.qMax) (ca
   · unfold Datagram.write; simp; omega
   · simp [Datagram.writeSize, Datagram.headerSize, enc_length]
 
+/-- Two datagrams with the same bytes on the wire carry the same session (quarter stream id) and
+the same payload: the receiver can never attribute a datagram to another session or cut its
+payload differently than the sender did. -/
+theorem datagram_wire_unique (q₁ q₂ : Nat) (p₁ p₂ : Bytes) (cap₁ cap₂ : Nat) (bs : Bytes)
+    (h₁q : q₁ ≤ Ids.qMax) (h₂q : q₂ ≤ Ids.qMax)
+    (h₁ : Datagram.write q₁ p₁ cap₁ = some bs) (h₂ : Datagram.write q₂ p₂ cap₂ = some bs) :
+    q₁ = q₂ ∧ p₁ = p₂ := by
+  unfold Datagram.write at h₁ h₂
+  split at h₁
+  · cases h₁
+  split at h₂
+  · cases h₂
+  have e₁ : Varint.enc q₁ ++ p₁ = bs := Option.some.inj h₁
+  have e₂ : Varint.enc q₂ ++ p₂ = bs := Option.some.inj h₂
+  have r₁ := Datagram.read_write q₁ p₁ h₁q
+  have r₂ := Datagram.read_write q₂ p₂ h₂q
+  rw [e₁] at r₁
+  rw [e₂, r₁] at r₂
+  injection r₂ with ha hb
+  exact ⟨ha, hb⟩
+
 /-- a too-small destination is refused, nothing written -/
 theorem datagram_too_small (q : Nat) (payload : Bytes) (cap : Nat)
     (hcap : cap < Datagram.writeSize q payload) : Datagram.write q payload cap = none := by
